@@ -20,7 +20,7 @@ from . import base
 PROPERTY = "C18"
 SIGMA = ["'", '"', "\\", "%", "_", ";", "-", "/", "*", "\n", " ", "a", "é", "日"]
 CORE = ["'", "\\", "%", "_", "-", ";", "a"]
-LONG = ["'; DROP TABLE T; --", "$0", "a$1.", "(a)", "[a]", "a.c", "^a", "%%", "\\%", "\\_", "a%b_c", "/* c */", "-- x", "''", "\"T\".x", "a' OR '1'='1", "\\\\", "%_%"]
+LONG = ["'; DROP TABLE T; --", "$0", "a$1.", "(a)", "[a]", "a.c", "^a", "%%", "\\%", "\\_", "a%b_c", "/* c */", "-- x", "''", "\"T\".x", "a' OR '1'='1", "\\\\", "%_%", "%(x)s"]
 
 
 def strings(tier):
